@@ -397,8 +397,13 @@ class World:
 
     def __init__(self, n=1, store="file", tz="UTC", queue_type="classic", transport="asyncio",
                  execution_ttl=7200, retention_ms=4000, note_ttl=0, validate_asl=True,
-                 oracle=None, tag="w"):
+                 oracle=None, tag="w", hist_quota=None):
         global IDS
+        # hist_quota: the engine's history quota constant (25000) scaled down for this world, so that a run
+        # reaching the quota stays small enough to be recorded and validated line by line
+        self._hist_quota_saved = se_mod.MAX_EXECUTION_HISTORY_LENGTH
+        if hist_quota is not None:
+            se_mod.MAX_EXECUTION_HISTORY_LENGTH = hist_quota
         CLOCK.now = T0
         IDS.n = itertools.count(1)
         set_tz(tz)
@@ -825,6 +830,7 @@ class World:
         except BaseException:
             pass
         self.loop.close()
+        se_mod.MAX_EXECUTION_HISTORY_LENGTH = self._hist_quota_saved
         if self.store_kind == "file" and os.path.exists(self.store_url):
             os.remove(self.store_url)
 
